@@ -4,7 +4,7 @@ from __future__ import annotations
 import z3
 
 from pyvc.unit import unit
-from pyvc.values import SV, Fn
+from pyvc.values import SV, Fn, Unsupported
 
 from .common import no_raise, returned, sem_of, wf_of
 from .ops import _ops_units
@@ -20,8 +20,33 @@ def guards(ctx):
     agg = ctx.sym("bodyagg", "ast")
     st = ctx.state()
     st.assume(wf.wf("BodyAggregate", agg.term, depth=2))
-    f = ctx.fn("ngo.normalize", "remove_unecessary_bounds.<locals>.replace", env_id=st.new_env({}))
-    res = ctx.call(st, f, [agg])
+    # the closure `replace` is obtained the way the real code hands it out: remove_unecessary_bounds passes it to
+    # transform_ast(stm, "BodyAggregate", replace); the override applies it to the symbolic aggregate
+    seen = {}
+
+    def transform_ast(e, s, a, k):
+        kind = a[1] if len(a) > 1 else k.get("ast_name")
+        fnv = a[2] if len(a) > 2 else k.get("function")
+        seen["kind"] = kind
+        return e.call(s, None, fnv, [agg], {})
+
+    ctx.ex.overrides["ngo.utils.ast:transform_ast"] = transform_ast
+    stm = ctx.sym("stm", "ast")
+    prg = st.alloc(ListObj(items=(stm,)))
+    outer = ctx.call(st, ctx.fn("ngo.normalize", "remove_unecessary_bounds"), [prg])
+    ctx.inputs.pop("stm", None)
+    res = []
+    for s_, v_ in outer:
+        from pyvc.exec import Raised as _R
+
+        if isinstance(v_, _R):
+            res.append((s_, v_))
+            continue
+        items = ctx.ex.B.concrete_items(s_, v_)
+        if items is None or len(items) != 1:
+            raise Unsupported("remove_unecessary_bounds no longer maps statements one to one")
+        res.append((s_, items[0]))
+    ctx.oblige("applies-to-body-aggregates", [], z3.BoolVal(seen.get("kind") == "BodyAggregate"), kind="frame")
     ok, bad = returned(res)
     ctx.cover("reach", st)
     v = z3.Const("agg_value", sem.Val)
@@ -52,3 +77,123 @@ def guards(ctx):
 
 def sem_guards(sem, A, agg, v, env):
     return z3.And(sem.guard_left(A.BodyAggregate_left_guard(agg), v, env), sem.guard_right(A.BodyAggregate_right_guard(agg), v, env))
+
+
+from pyvc.state import fresh_id  # noqa: E402
+from pyvc.values import ListObj, Ref, Tup  # noqa: E402
+
+
+@unit("C05.count_to_sum", "C05", "ngo.normalize:_convert_count_to_sum", fallback={"mirror": "corpus", "trait": "none"})
+def count_to_sum(ctx):
+    """#count{t : c} becomes #sum+{1,t : c}: same guards, same elements in order, each with weight 1 put in front of the
+    old tuple and the same condition (so distinct tuples stay distinct and the value is the number of tuples)"""
+    m, ex = ctx.m, ctx.ex
+    wf = wf_of(ctx)
+    A = m.AST
+    F = m.enums["AggregateFunction"][1]
+    st = ctx.state()
+    agg = ctx.sym("agg", "ast")
+    st.assume(wf.wf("BodyAggregate", agg.term, 2))
+    _e0 = m.at(m.AST.BodyAggregate_elements(agg.term), 0, "ast")
+    cs_hints = [z3.And(m.len(m.AST.BodyAggregate_elements(agg.term), "ast") == 1, m.len(m.AST.BodyAggregateElement_terms(_e0), "ast") == 1)]
+    res = ctx.call(st, ctx.fn("ngo.normalize", "_convert_count_to_sum"), [agg])
+    ok, bad = returned(res)
+    ctx.cover("reach", st)
+    no_raise(ctx, "no-raise", res)
+    ln, at = m.lst_funcs("ast")
+    j, i = z3.Int("j!cs"), z3.Int("i!cs")
+    oe = A.BodyAggregate_elements(agg.term)
+    for n, (s, r) in enumerate(ok):
+        ne = A.BodyAggregate_elements(r.term)
+        ot, nt = A.BodyAggregateElement_terms(at(oe, j)), A.BodyAggregateElement_terms(at(ne, j))
+        one = A.SymbolicTerm(m.Sym.SymNumber(1))
+        ctx.oblige(
+            f"post#{n}",
+            s,
+            z3.And(
+                A.is_BodyAggregate(r.term),
+                A.BodyAggregate_function(r.term) == F["SumPlus"],
+                A.BodyAggregate_left_guard(r.term) == A.BodyAggregate_left_guard(agg.term),
+                A.BodyAggregate_right_guard(r.term) == A.BodyAggregate_right_guard(agg.term),
+                ln(ne) == ln(oe),
+                z3.ForAll(
+                    [j],
+                    z3.Implies(
+                        z3.And(0 <= j, j < ln(oe)),
+                        z3.And(
+                            A.is_BodyAggregateElement(at(ne, j)),
+                            A.BodyAggregateElement_condition(at(ne, j)) == A.BodyAggregateElement_condition(at(oe, j)),
+                            ln(nt) == ln(ot) + 1,
+                            at(nt, 0) == one,
+                            z3.ForAll([i], z3.Implies(z3.And(0 <= i, i < ln(ot)), at(nt, i + 1) == at(ot, i))),
+                        ),
+                    ),
+                ),
+            ),
+            replay={"mirror": "count_to_sum"},
+            hints=cs_hints,
+        )
+
+
+@unit("C05.equality", "C05", "ngo.normalize:_equality", fallback={"mirror": "corpus", "trait": "none"})
+def equality(ctx):
+    """_equality(lit) = (X, t) only if lit means exactly X = t for every assignment, X is a named variable, lit contains
+    no pool / interval, and X does not occur in t (side condition of  exists X.(X = t and phi) <=> phi[X := t])"""
+    sem, m, ex = sem_of(ctx), ctx.m, ctx.ex
+    wf = wf_of(ctx)
+    A = m.AST
+    st = ctx.state()
+    lit = ctx.sym("lit", "ast")
+    st.assume(wf.wf("body_literal", lit.term, 3))
+    V = {}
+
+    def collect_ast(e, s, a, k):
+        name = a[1] if len(a) > 1 else k.get("ast_name")
+        if name not in V:
+            V[name] = e.ufunc("collect_" + name, [m.AST], m.sort(("list", "ast")))
+        return [(s, s.alloc(ListObj(sv=SV(V[name](a[0].term), ("list", "ast")))))]
+
+    ex.overrides["ngo.utils.ast:collect_ast"] = collect_ast
+    res = ctx.call(st, ctx.fn("ngo.normalize", "_equality"), [lit])
+    ok, bad = returned(res)
+    ctx.cover("reach", st)
+    no_raise(ctx, "no-raise", res)
+    env = z3.Const("env", sem.Env)
+    ln, at = m.lst_funcs("ast")
+    atom = A.Literal_atom(lit.term)
+    g = at(A.Comparison_guards(atom), 0)
+    holds = sem.signed(A.Literal_sign(lit.term), sem.cmp_holds(A.Guard_comparison(g), sem.tval(A.Comparison_term(atom), env), sem.tval(A.Guard_term(g), env)))
+    collect_var = ex.ufunc("collect_Variable", [m.AST], m.sort(("list", "ast")))
+    j = z3.Int("j!eq")
+    n_some = 0
+    for n, (s, r) in enumerate(ok):
+        if r is None:
+            continue
+        n_some += 1
+        var, rest = r.items
+        ctx.oblige(
+            f"post-shape#{n}",
+            s,
+            z3.And(
+                A.is_Literal(lit.term),
+                A.is_Comparison(atom),
+                ln(A.Comparison_guards(atom)) == 1,
+                A.is_Variable(var.term),
+                A.Variable_name(var.term) != m.strlit("_"),
+                z3.Or(z3.And(var.term == A.Comparison_term(atom), rest.term == A.Guard_term(g)), z3.And(var.term == A.Guard_term(g), rest.term == A.Comparison_term(atom))),
+                ln(ex.ufunc("collect_Pool", [m.AST], m.sort(("list", "ast")))(lit.term)) == 0,
+                ln(ex.ufunc("collect_Interval", [m.AST], m.sort(("list", "ast")))(lit.term)) == 0,
+            ),
+            replay={"mirror": "equality"},
+        )
+        ctx.oblige(f"post-meaning#{n}", s, holds == (sem.tval(var.term, env) == sem.tval(rest.term, env)), replay={"mirror": "equality"})
+        occurs = z3.Exists([j], z3.And(0 <= j, j < ln(collect_var(rest.term)), at(collect_var(rest.term), j) == var.term))
+        ctx.oblige(
+            f"post-occurs-check#{n}",
+            s,
+            z3.Not(occurs),
+            replay={"mirror": "equality"},
+            exclude={"C05-equality-occurs-check": occurs},
+        )
+    ctx.cover("some-equality-path", [z3.BoolVal(n_some > 0)])
+    ctx.assume_note("collect_ast(x, K) is uninterpreted here (list of outermost K-nodes of x as computed by clingo's Transformer)")
